@@ -446,6 +446,11 @@ func (e *Engine) callContract(st *State, fr *Frame, fc *FuncContract, fn *ssa.Fu
 		env.vars[ld.Name] = e.evalExpr(env, ld.E)
 	}
 	for _, en := range fc.Ensures {
+		if en.Known == "trusted" {
+			e.mu.Lock()
+			e.trusted[shortKey(key)+"#"+en.Label+": "+en.Src] = true
+			e.mu.Unlock()
+		}
 		st.assume(e.evalBool(env, en.E))
 	}
 	rec := &CallRec{Callee: key, Short: shortTarget(fc.Target), Params: map[string]Val{}, Results: map[string]Val{}, Args: args, Rets: rs, Pre: pre, Post: map[string]*Term{}}
